@@ -266,12 +266,20 @@ def gen_pair_op(rng, clean, subs):
     if k < 30:
         c = rng.choice(CEIDS[:3]) if clean else rng.choice(CEIDS)
         dvs = [rng.choice(VIDS[:3] if clean else VIDS) for _ in range(rng.choice([1, 1, 2, 3]) if clean else rng.choice([0, 1, 2, 3]))]
-        if not clean and rng.chance(1, 4):
+        if clean:
+            free = [r for r in ("n5", "n7", "n0") if r not in ["n" + str(s_[2]) for s_ in subs]]
+            if free and rng.chance(1, 3):        # an explicit report id the equipment does not hold at the moment
+                return "X" + rng.choice(free) + ":" + c + "=" + ",".join(dvs)
+        elif rng.chance(1, 4):
             return "X" + rng.choice(["n5", "n1000", "n5", "n0"]) + ":" + c + "=" + ",".join(dvs)
         return "U" + c + "=" + ",".join(dvs)
-    if k < 36:
+    if k < 34:
         return "C"
-    if k < 75:
+    if k < 40:
+        return "D"          # host.disable_ceid_reports(): S2F33 delete-all, report_subscriptions untouched
+    if k < 44:
+        return "N"          # host.disable_ceids(): S2F37 (False, [])
+    if k < 78:
         pool = [s_[0] for s_ in subs] * 3 + CEIDS
         return "T" + ",".join(rng.choice(pool) for _ in range(rng.choice([1, 1, 2, 3, 4])))
     j = rng.below(3)
@@ -291,14 +299,19 @@ def pair_dump(rig):
     return f"{reps}@{links}@{subs}|{host._report_id_counter}"  # pylint: disable=protected-access
 
 
-def pair_history(rig, ops, gen=None):
-    """-> (answers, oracle violation or None).  Resets the pair first (through the host's own clear call)."""
+def pair_history(rig, ops, gen=None, clean=False):
+    """-> (answers, oracle violation or None).  Resets the pair first (through the host's own clear call).
+    `clean`: every subscription of the history is one the equipment must accept (known CEID, known non-empty dvs, a report id it
+    does not hold): the direct oracle then demands that it IS accepted and that every trigger of an enabled subscribed event
+    reaches the host application exactly once."""
+    clean = clean or (gen is not None and gen[2])
     host, eq = rig.host, rig.eq
     bounded(host.clear_collection_events)
     host._report_id_counter = 1000  # pylint: disable=protected-access
     eq.status_variables[10].value, eq.data_values[30].value, eq.data_values[31].value = 0, 0, ""
     values = {"n10": "n0", "n30": "n0", "n31": "t"}
-    subs = []          # the harness's own record of valid subscriptions since the last clear: (ceid, dvs, report id)
+    subs = []          # the harness's own record of the subscriptions the equipment holds: (ceid, dvs, report id)
+    enabled = {}       # ceid -> enabled, by the same record
     next_rid = 1000
     answers, bad, i = [], None, 0
     while True:
@@ -328,15 +341,34 @@ def pair_history(rig, ops, gen=None):
                     (rid not in [plain(k) for k in eq.registered_reports] or rid not in [plain(k) for k in host.report_subscriptions]):
                 bad = (i, "c20c-explicit-report-id", f"{op}: all three requests accepted, but report {rid} asked for by the application is not "
                        f"the one defined (equipment reports {[plain(k) for k in eq.registered_reports]}, host subscriptions {list(host.report_subscriptions)})")
+            the_rid = next_rid if op[0] == "U" else rid
+            if clean:
+                if out != "k0,0,0" and bad is None:
+                    bad = (i, "c20c-subscribe-refused", f"{op}: a subscription the equipment has to accept (known event, known variables, report id "
+                           f"{the_rid} not defined there) was answered {out}: the event will never reach the host")
+                subs.append((c, dvs.split(","), the_rid))
+                enabled[c] = True
+            elif op[0] == "U" and out == "k0,0,0":
+                subs.append((c, dvs.split(","), the_rid))
+                enabled[c] = True
             if op[0] == "U":
-                if out == "k0,0,0":
-                    subs.append((c, dvs.split(","), next_rid))
                 next_rid += 1
         elif op == "C":
             bounded(host.clear_collection_events)
             acks = [e for e in eq.log if e.startswith("k") or e == "x"]
             out = "k" + ",".join(("x" if e == "x" else e[1:]) for e in acks)
             subs.clear()
+            enabled.clear()
+        elif op in ("D", "N"):
+            bounded(host.disable_ceid_reports if op == "D" else host.disable_ceids)
+            acks = [e for e in eq.log if e.startswith("k") or e == "x"]
+            out = "k" + ",".join(("x" if e == "x" else e[1:]) for e in acks)
+            if op == "D":
+                subs.clear()
+                enabled.clear()
+            else:
+                for c_ in enabled:
+                    enabled[c_] = False
         elif op[0] == "T":
             ids = [parse_id(x)[1][0] for x in op[1:].split(",")]
             eq.trigger_collection_events(ids)
@@ -351,10 +383,10 @@ def pair_history(rig, ops, gen=None):
             if cur:
                 msgs.append(";".join(cur))
             out = ("|".join(msgs) if msgs else ("-" if not errs else "")) + ("!" if errs else "")
-            if gen is not None and gen[2] and bad is None:
+            if clean and bad is None:
                 want = []
                 for c in op[1:].split(","):
-                    mine = [s_ for s_ in subs if s_[0] == c]
+                    mine = [s_ for s_ in subs if s_[0] == c] if enabled.get(c) else []
                     if mine:
                         want.append(";".join(f"e{c}/n{rid}(" + ",".join(f"{d}={values[d]}" for d in dvl) + ")" for _, dvl, rid in mine) + ";ok")
                 want = "|".join(want) if want else "-"
@@ -380,12 +412,16 @@ def pair_section(res, rng, drv, rig, n_hist, max_len):
               ["Xn5:n100=n30,n10", "Xn5:n101=n30,n10,n10", "Tn100", "Tn101"],          # the explicit-id witness: S6F0 from the host
               ["Xn0:n100=n30", "Tn100", "Un101=n10", "Xn0:n101=n30", "Tn101,n100"],       # a falsy explicit id is an explicit id
               ["Un100=n99", "Un99=n10", "Un102=", "Tn100,n99,n102", "Un100=n10", "Un100=n30,n31", "Tn100,n100"]]
-    todo = [(ops, None) for ops in corpus]
+    todo = [(ops, None, False) for ops in corpus]
+    # subscribe again under the same explicit report id after the reports were deleted on the equipment; disable / re-enable
+    todo += [(ops, None, True) for ops in (
+        ["Xn5:n100=n30", "Tn100", "D", "Tn100", "Xn5:n100=n30", "Tn100", "N", "Tn100", "Un100=n10", "Tn100,n100"],
+        ["Un100=n30,n10", "Un101=n10", "N", "Tn100,n101", "Un101=n31", "Tn101,n100", "D", "Un100=n30,n10", "Tn100"])]
     for i in range(n_hist):
         clean = not rng.chance(1, 3)
-        todo.append(([], (rng.fork(f"p{i}"), rng.range(3, max_len), clean)))
-    for ops, gen in todo:
-        ans, bad = pair_history(rig, ops, gen)
+        todo.append(([], (rng.fork(f"p{i}"), rng.range(3, max_len), clean), clean))
+    for ops, gen, cl in todo:
+        ans, bad = pair_history(rig, ops, gen, cl)
         res.count(("pair", tuple(ops)), nontrivial=any("e" == a[:1] for a in ans), sample={"ops": ops[:8]} if len(res.samples) < 6 else None)
         for o, a in zip(ops, ans):
             res.bump("c20c_pair", o[0] + ":" + ("events" if a[:1] == "e" else a.split("@")[0][:7]))
@@ -459,6 +495,13 @@ def run(res, rng, drv, tier):
         res.notes.append(f"c20_gem skipped: {exc}")
         return
     try:
+        # isolation, structural: a second host / equipment object of the same process shares no table with the pair under test
+        other_host = secsgem.gem.GemHostHandler(secsgem.hsms.HsmsSettings(device_type=secsgem.common.DeviceType.HOST))
+        other_eq = Eq(secsgem.hsms.HsmsSettings(device_type=secsgem.common.DeviceType.EQUIPMENT))
+        for what, a_, b_ in (("GemHostHandler", rig.host, other_host), ("GemEquipmentHandler", rig.eq, other_eq)):
+            shared = gemlib.shared_tables(a_, b_)
+            if shared:
+                res.violate("shared-mutable-table", f"two {what} instances of one process share the table object(s) {shared}", {"attributes": shared})
         rcmd_section(res, rng, drv, rig, 200 if big else 60)
         pair_section(res, rng, drv, rig, 150 if big else 40, 14 if big else 9)
         alarm_section(res, rng, drv, rig, 60 if big else 15, 12)
